@@ -195,6 +195,26 @@ class SubListTF(TF):
         return SubTagList(*ht.TagList(*kids).tagify())
 
 
+import collections.abc as _abc
+
+
+class SeqTF(_abc.Sequence):
+    """A tagifiable object that also implements the Sequence protocol (it is one child, not a container of children)."""
+
+    def __init__(self, payload_recipes, ret):
+        self._tf = TF(payload_recipes, ret)
+        self.payload_recipes, self.ret = payload_recipes, ret
+
+    def __len__(self):
+        return 2
+
+    def __getitem__(self, i):
+        return ["seq-item-0", "seq-item-1"][i]
+
+    def tagify(self):
+        return self._tf.tagify()
+
+
 class FlakyTF(TF):
     """Tagifiable whose first tagify() call fails; later calls succeed."""
 
@@ -206,7 +226,7 @@ class FlakyTF(TF):
         return super().tagify()
 
 
-HARNESS_DOUBLES = (ReprObj, TF, TFObj, LazyMeta)  # (StoredTF etc. are TF subclasses)
+HARNESS_DOUBLES = (ReprObj, TF, TFObj, LazyMeta, SeqTF)  # (StoredTF etc. are TF subclasses)
 
 _SHARED = {}
 
@@ -288,6 +308,8 @@ def _build(r):
             return LazyMeta(r["c"], r.get("ret", "list"))
         if r.get("as") == "flaky":
             return FlakyTF(r["c"], r.get("ret", "list"))
+        if r.get("as") == "seq":
+            return SeqTF(r["c"], r.get("ret", "list"))
         if r.get("as") == "stored":
             return StoredTF(r["c"], r.get("ret", "list"))
         if r.get("as") == "sublist":
@@ -406,6 +428,25 @@ def build_tag(r):
         t = mk(*attr_args)
         t.children += kids
         return t
+    if how == "setitem_last":
+        # the last child arrives by item assignment over a placeholder
+        single = ("text", "tag", "html", "obj", "dep", "meta", "headc", "tfobj")
+        if not kids or r["c"][-1]["k"] not in single or (r["c"][-1]["k"] == "text" and r["c"][-1].get("sub")):
+            return mk(*attr_args, *kids)
+        t = mk(*attr_args, *kids[:-1], "placeholder-child")
+        t.children[-1] = kids[-1]
+        return t
+    if how == "after_rejected_extend":
+        # a batch that is refused (unsupported object among valid ones) must leave no trace; then the real children arrive
+        t = mk(*attr_args)
+        for attempt in (lambda: t.extend(["junk-a", ht.Tag("i", "junk"), object(), "junk-b"]), lambda: t.append("junk-c", {1, 2}),
+                        lambda: t.insert(0, ["junk-d", b"bytes"])):
+            try:
+                attempt()
+            except TypeError:
+                pass
+        t.extend(kids)
+        return t
     if how == "used_as_context":
         import sys as _sys
 
@@ -442,7 +483,7 @@ def build_tag(r):
 
 
 HOWS = ["ctor", "ctor", "ctor_mixed", "nested", "append", "append_many", "extend", "insert", "taglist", "toggle_ws", "reassign_children",
-        "slice_children", "iadd", "insert_neg_list", "extend_iter", "iadd_gen", "extend_map", "used_as_context"]
+        "slice_children", "iadd", "insert_neg_list", "extend_iter", "iadd_gen", "extend_map", "used_as_context", "setitem_last", "after_rejected_extend"]
 
 
 # ------------------------------------------------------------------ recipe helpers
@@ -522,6 +563,12 @@ def rand_tree(rng, depth=4, kinds=None, names=tag_name, max_children=5, attrs=Tr
             name = names(rng)
             n = rng.randint(0, max_children) if rng.random() < 0.85 else 0
             kids = [node(d - 1) for _ in range(n)]
+            if kids and rng.random() < 0.06:
+                # the very same argument object (a container or a tag) supplied twice
+                again = rng.choice(kids)
+                if again["k"] in ("tag", "list"):
+                    again.setdefault("share", "rt%d" % rng.randrange(10**9))
+                    kids.insert(rng.randint(0, len(kids)), again)
             if name in ("script", "style"):
                 kids = [{"k": "text", "s": rng.choice(WORDS)} for _ in range(min(n, 2))]
             r = {"k": "tag", "name": name, "ws": (rng.random() < 0.5) if ws is None else ws(rng, name),
